@@ -150,6 +150,125 @@ def start_drain_gates(repo: Path):
         "localStartLinkCall": m2.group(1) if m2 else "",
         "tryLinkStartingCalls": m3.group(1) if m3 else "",
     }
+def registry_facts(repo: Path):
+    """C10 (round 4, agent tree): source facts about the registries.  Returns Lean lines."""
+    cell = strip_comments(read(repo, "ractor/src/actor/actor_cell.rs"))
+    actor = strip_comments(read(repo, "ractor/src/actor.rs"))
+    inner = strip_comments(read(repo, "ractor/src/thread_local/inner.rs"))
+    pidreg = strip_comments(read(repo, "ractor/src/registry/pid_registry.rs"))
+    out = []
+    # every call site of set_status(ActorStatus::Stopped) outside tests, with its enclosing fn
+    sites = []
+    for rel in ("ractor/src/actor.rs", "ractor/src/actor/actor_cell.rs", "ractor/src/thread_local/inner.rs",
+                "ractor/src/actor/actor_ref.rs", "ractor/src/actor/actor_properties.rs",
+                "ractor/src/thread_local.rs", "ractor/src/actor/derived_actor.rs"):
+        src = strip_comments(read(repo, rel))
+        for m in re.finditer(r"\.set_status\(\s*ActorStatus::Stopped\s*\)", src):
+            fns = list(re.finditer(r"\bfn\s+(\w+)", src[:m.start()]))
+            sites.append((rel.split("/")[-1] + ":" + (fns[-1].group(1) if fns else "?")))
+    out.append("/-- every non-test call site of `set_status(ActorStatus::Stopped)`: file:enclosing fn -/")
+    out.append(f"def stoppedCallSites : List String := {lean_strs(sites)}")
+    # spawn_linked_remote: the extra set_status(Stopped) comes after `start(...)` has returned an error
+    body = fn_body(actor, "spawn_linked_remote") or ""
+    i_start = body.find(".start(")
+    m = re.search(r"if\s+result\.is_err\(\)\s*\{\s*\w+\.set_status\(\s*ActorStatus::Stopped\s*\)\s*;\s*\}", body)
+    out.append("/-- `spawn_linked_remote`: `set_status(Stopped)` only inside `if result.is_err()` after `start(..).await` -/")
+    out.append(f"def remoteStoppedAfterFailedStart : Bool := {str(bool(m) and 0 <= i_start < m.start()).lower()}")
+    # set_status: registry::unregister(name) guarded by is_local()
+    ss = fn_body(cell, "set_status", cell.find("pub(crate) fn set_status")) or ""
+    guarded = re.search(r"if\s+self\.get_id\(\)\.is_local\(\)\s*\{\s*crate::registry::unregister\(name\)\s*;\s*\}", ss) is not None
+    n_unreg = len(re.findall(r"registry::unregister\(", ss))
+    out.append("/-- `set_status`: the one `registry::unregister(name)` sits inside `if self.get_id().is_local()` (fix of F2) -/")
+    out.append(f"def unregisterGuardedByIsLocal : Bool := {str(guarded and n_unreg == 1).lower()}")
+    nr = fn_body(cell, "new_remote") or ""
+    out.append("/-- `ActorCell::new_remote` touches neither registry -/")
+    out.append(f"def newRemoteTouchesRegistries : Bool := {str('registry::' in nr).lower()}")
+    # ActorCell::new: register ; register_pid ; on Err unregister(name)
+    nb = fn_body(cell, "new", cell.find("pub(crate) fn new<TActor>")) or ""
+    calls = re.findall(r"registry::(?:pid_registry::)?(register_pid|register|unregister)\(", nb)
+    out.append("/-- registry calls of `ActorCell::new` in source order -/")
+    out.append(f"def newRegistryCalls : List String := {lean_strs(calls)}")
+    rb = re.search(r"if\s+let\s+Err\(err\)\s*=\s*crate::registry::pid_registry::register_pid\([^{}]*?\)\s*\{\s*if\s+let\s+Some\(r_name\)\s*=\s*&name\s*\{\s*crate::registry::unregister\(r_name\)\s*;\s*\}\s*return\s+Err", nb) is not None
+    out.append("/-- … and the `unregister` is the rollback inside `if let Err(err) = register_pid(..)`, followed by `return Err` -/")
+    out.append(f"def newRollsBackOnPidFailure : Bool := {str(rb).lower()}")
+    tl = fn_body(inner, "new_thread_local") or ""
+    calls_tl = re.findall(r"registry::(?:pid_registry::)?(register_pid|register|unregister)\(", tl)
+    out.append("/-- the thread-local twin of `ActorCell::new` -/")
+    out.append(f"def newThreadLocalRegistryCalls : List String := {lean_strs(calls_tl)}")
+    # pid registry: every entry point is guarded by is_local(); fan-out after the insert / after the remove
+    guards = []
+    for f in ("register_pid", "unregister_pid", "where_is_pid"):
+        b = (fn_body(pidreg, f) or "").strip()
+        guards.append((f, b.startswith("if id.is_local()")))
+    out.append("/-- pid registry entry points whose body is `if id.is_local() { … }` -/")
+    out.append("def pidRegistryLocalGuards : List (String × Bool) := [" +
+               ", ".join(f"({lean_str(k)}, {str(v).lower()})" for k, v in guards) + "]")
+    rp = fn_body(pidreg, "register_pid") or ""
+    up = fn_body(pidreg, "unregister_pid") or ""
+    sp_ok = 0 <= rp.find("v.insert(") < rp.find("PidLifecycleEvent::Spawn") and "Occupied" in rp[:rp.find("v.insert(")]
+    tm_ok = 0 <= up.find(".remove(&id)") < up.find("PidLifecycleEvent::Terminate") and up.count("PidLifecycleEvent::") == 1
+    out.append("/-- `register_pid`: `Spawn` is sent only in the `Vacant` arm, after the insert; `unregister_pid`: `Terminate` only if `remove` returned an entry -/")
+    out.append(f"def pidEventsAfterTableChange : Bool := {str(bool(sp_ok and tm_ok)).lower()}")
+    return out
+
+
+def tree_facts(repo: Path):
+    """C05 (round 4, agent tree): source facts about the supervision tree.  Returns Lean lines."""
+    sup = strip_comments(read(repo, "ractor/src/actor/supervision.rs"))
+    cell = strip_comments(read(repo, "ractor/src/actor/actor_cell.rs"))
+    actor = strip_comments(read(repo, "ractor/src/actor.rs"))
+    inner = strip_comments(read(repo, "ractor/src/thread_local/inner.rs"))
+    out = []
+    # terminate: per popped actor first the kill test, then take_children, then the push
+    tb = fn_body(cell, "terminate") or ""
+    order = [m.group(0) for m in re.finditer(r"get_status\(\)|\.kill\(\)|take_children|pending\.extend|pending\.pop", tb)]
+    out.append("/-- `ActorCell::terminate`: the calls of the worklist loop in source order -/")
+    out.append(f"def terminateLoopOrder : List String := {lean_strs(order)}")
+    # the two link forms and their child limits
+    lims = []
+    for f in ("link", "link_starting"):
+        b = fn_body(sup, f) or ""
+        m = re.search(r"link_below\(\s*child\s*,\s*supervisor\s*,\s*super::actor_cell::ActorStatus::(\w+)", b)
+        lims.append((f, m.group(1) if m else "?"))
+    out.append("/-- child limit each link form passes to `link_below` -/")
+    out.append("def linkChildLimits : List (String × String) := [" + ", ".join(f"({lean_str(a)}, {lean_str(b)})" for a, b in lims) + "]")
+    lb = fn_body(sup, "link_below") or ""
+    m = re.search(r"if\s+child\.get_status\(\)\s*>=\s*child_limit\s*\|\|\s*supervisor\.get_status\(\)\s*>=\s*super::actor_cell::ActorStatus::(\w+)\s*\{\s*return\s+false", lb)
+    out.append("/-- `link_below`: `child >= child_limit || supervisor >= <this>` refuses -/")
+    out.append(f"def linkSupervisorLimit : String := {lean_str(m.group(1) if m else '?')}")
+    starts = []
+    for rel, src in (("actor.rs", actor), ("inner.rs", inner)):
+        b = fn_body(src, "start", src.find("async fn start")) or ""
+        starts.append((rel, "try_link_starting" if "try_link_starting(" in b else ("try_link" if "try_link(" in b else "?")))
+    out.append("/-- which link `start` uses (Send runtime, thread-local runtime) -/")
+    out.append("def startLinkCalls : List (String × String) := [" + ", ".join(f"({lean_str(a)}, {lean_str(b)})" for a, b in starts) + "]")
+    # who takes TREE_MUTATION_LOCK
+    locked = []
+    for f in ("link_below", "unlink", "take_children", "get_children", "for_each_child", "try_get_supervisor"):
+        locked.append((f, "TREE_MUTATION_LOCK" in (fn_body(sup, f) or "")))
+    out.append("/-- functions of `supervision.rs` that take `TREE_MUTATION_LOCK` -/")
+    out.append("def treeLockUsers : List (String × Bool) := [" + ", ".join(f"({lean_str(a)}, {str(b).lower()})" for a, b in locked) + "]")
+    # hand-over: both field guards of the first half are dropped before the old supervisor's set is locked
+    i1, i2 = lb.find("drop(current_supervisor)"), lb.find("drop(new_children_guard)")
+    i3 = lb.find("previous_supervisor.inner.tree.children.lock()")
+    out.append("/-- `link_below`: `drop(current_supervisor); drop(new_children_guard)` precede the lock of the previous supervisor's set -/")
+    out.append(f"def linkReleasesBeforeOldParent : Bool := {str(0 <= i1 < i2 < i3).lower()}")
+    # unlink: early return unless `supervisor` is the child's current supervisor, before anything is touched
+    ub = fn_body(sup, "unlink") or ""
+    m = re.search(r"if\s*!\s*current_supervisor\s*\.as_ref\(\)\s*\.is_some_and\(\|current\|\s*current\.get_id\(\)\s*==\s*supervisor\.get_id\(\)\)\s*\{\s*return;\s*\}", ub)
+    i_rm = ub.find(".remove(")
+    out.append("/-- `unlink`: `if !current_supervisor…is_some_and(|current| current.get_id() == supervisor.get_id()) { return; }` precedes the removal -/")
+    out.append(f"def unlinkOnlyCurrentSupervisor : Bool := {str(bool(m) and 0 <= m.end() <= i_rm).lower()}")
+    # cleanup: terminate() is called unconditionally (brace depth 0 of the function body, after the `armed` test)
+    cb = fn_body(actor, "cleanup", actor.find("impl ActorLifecycleGuard")) or ""
+    i_t = cb.find("self.actor.terminate()")
+    depth = cb[:i_t].count("{") - cb[:i_t].count("}") if i_t >= 0 else -1
+    out.append("/-- `ActorLifecycleGuard::cleanup`: `self.actor.terminate()` is not inside any `if` -/")
+    out.append(f"def cleanupTerminatesUnconditionally : Bool := {str(depth == 0).lower()}")
+    tk = fn_body(sup, "take_children") or ""
+    out.append("/-- `take_children`: the parent's `children` guard is never dropped explicitly (held to the end of the region) -/")
+    out.append(f"def takeHoldsParentSet : Bool := {str('children.lock()' in tk and 'drop(children)' not in tk).lower()}")
+    return out
 
 
 def async_std_backend(repo: Path):
@@ -479,6 +598,11 @@ def main():
     w(f"def clientConnectCasts : List (String × String × String) := [{', '.join(f'({lean_str(a)}, {lean_str(b)}, {lean_str(c)})' for a, b, c in cc_casts)}]")
     w("/-- C17: (arm of NodeServer::handle calling NodeSession::new, cookie argument, is_server argument) -/")
     w(f"def sessionCreationSites : List (String × String × String) := [{', '.join(f'({lean_str(a)}, {lean_str(b)}, {lean_str(c)})' for a, b, c in cc_sites)}]")
+    for line in registry_facts(repo):
+        w(line)
+    w("")
+    for line in tree_facts(repo):
+        w(line)
     w("")
     w("end Extracted")
     text = "\n".join(out) + "\n"
